@@ -376,6 +376,15 @@ func (e *Engine) step(st *State, in ssa.Instruction, prev *ssa.BasicBlock) {
 		fr.Regs[x] = scalar(r)
 	case *ssa.MakeChan:
 		r := e.newRef(st)
+		// nothing has been sent on a new channel (ghost send counter)
+		cur, ok := st.Ghost["sends"]
+		if !ok {
+			cur = tb.Const("G0!sends", SArrI)
+		}
+		st.Ghost["sends"] = tb.Store(cur, r, tb.Int(0))
+		if st.Disc != nil {
+			st.Disc.Ghosts["sends"] = true
+		}
 		fr.Regs[x] = scalar(r)
 	case *ssa.MakeClosure:
 		fn := x.Fn.(*ssa.Function)
@@ -970,7 +979,20 @@ func (e *Engine) sliceOp(st *State, x *ssa.Slice) Val {
 			e.oblige(st, "bounds", "", x.Pos(), tb.And(tb.Le(tb.Int(0), lot), tb.Le(lot, hit), tb.Le(hit, base.slCap())), "slice bounds out of range")
 		}
 		// s[lo:hi] of nil slice stays nil (arr 0)
-		return Val{T: []*Term{base.slArr(), tb.Ite(tb.Eq(base.slArr(), tb.Int(0)), tb.Int(0), tb.Add(base.slOff(), lot)), tb.Sub(hit, lot), tb.Sub(capT, lot)}}
+		newOff := tb.Ite(tb.Eq(base.slArr(), tb.Int(0)), tb.Int(0), tb.Add(base.slOff(), lot))
+		if c, isC := lot.ConstInt(); !(isC && c == 0) && base.slOff().Op != "int" {
+			// element positions of the sub-slice and of its base coincide: idx(off', k) = idx(off, lo+k). Stated over the
+			// uninterpreted idx so that quantified facts about either slice instantiate for the other.
+			no := tb.Fresh("sloff", SInt)
+			e.assumeQuiet(st, tb.Eq(no, newOff))
+			k := tb.BoundVar("k", SInt)
+			e.assumeQuiet(st, tb.Forall([]*Term{k}, tb.Eq(tb.App("idx", SInt, no, k), tb.App("idx", SInt, base.slOff(), tb.Add(lot, k))), []*Term{tb.App("idx", SInt, no, k)}))
+			j := tb.BoundVar("j", SInt)
+			e.assumeQuiet(st, tb.Forall([]*Term{j}, tb.Eq(tb.App("idx", SInt, base.slOff(), j), tb.App("idx", SInt, no, tb.Sub(j, lot))), []*Term{tb.App("idx", SInt, base.slOff(), j)}))
+			tb.UsesIdx = true
+			newOff = no
+		}
+		return Val{T: []*Term{base.slArr(), newOff, tb.Sub(hit, lot), tb.Sub(capT, lot)}}
 	case *types.Basic: // string
 		ln := e.strLen(st, base.T[0])
 		lot, hit := tb.Int(0), ln
